@@ -59,4 +59,54 @@ def loop (t : Trace ρ) (minIndex : Nat) : Nat → Nat → Outcome
 /-- `blockingquery.Query` entered while the store is in state `start` -/
 def run (t : Trace ρ) (minIndex start : Nat) : Outcome := loop t minIndex (t.last + 1 - start) start
 
+
+/-! ### the sentinel errors `ErrNotFound` / `ErrNotChanged`
+
+    switch {
+    case errors.Is(err, ErrNotFound):
+        if notFound { minQueryIndex = responseMeta.GetIndex() }   // "query result has not changed"
+        notFound = true
+    case errors.Is(err, ErrNotChanged):
+        if ranOnce { minQueryIndex = responseMeta.GetIndex() }
+    }
+    ranOnce = true
+
+A query function may answer "nothing there" (`ErrNotFound`) or "same as my previous answer" (`ErrNotChanged`);
+the loop then RAISES the index it blocks on to the one just reported, so that index movement caused by
+unrelated writes does not wake the client. `Flags` says in which states the query function raises which
+sentinel; `FlagsSound` is what its doc comment demands of the query function. -/
+
+structure Flags where
+  /-- the query function returns `ErrNotFound` when evaluated in state `k` -/
+  notFound : Nat → Bool
+  /-- evaluated in state `k`, right after its previous evaluation in state `j`, it returns `ErrNotChanged` -/
+  notChanged : Nat → Nat → Bool
+
+/-- loop state: the index blocked on, `notFound` seen before, the state of the previous evaluation (`none` = not run yet) -/
+structure LoopSt where
+  min : Nat
+  sawNotFound : Bool
+  prev : Option Nat
+
+/-- one evaluation in state `c`: the updated loop state -/
+def evalStep (t : Trace ρ) (f : Flags) (st : LoopSt) (c : Nat) : LoopSt :=
+  if f.notFound c then
+    { min := if st.sawNotFound then t.idx c else st.min, sawNotFound := true, prev := some c }
+  else match st.prev with
+    | some j => if f.notChanged j c then { st with min := t.idx c, prev := some c } else { st with prev := some c }
+    | none => { st with prev := some c }
+
+/-- the loop with sentinel handling -/
+def loopF (t : Trace ρ) (f : Flags) : Nat → LoopSt → Nat → Outcome
+  | 0, _, c => .timeout c
+  | fuel + 1, st, c =>
+    let st' := evalStep t f st c
+    if t.idx c > st'.min then .returned c
+    else match firstFired t c (c + 1) (t.last - c) with
+      | none => .timeout c
+      | some k => loopF t f fuel st' (wakeAt t k)
+
+def runF (t : Trace ρ) (f : Flags) (minIndex start : Nat) : Outcome :=
+  loopF t f (t.last + 1 - start) ⟨minIndex, false, none⟩ start
+
 end CV.BQ
